@@ -18,7 +18,13 @@
 rlbox_load_structs_from_library(vlib);
 
 using namespace vc;
+#ifdef C09_WIDE
+// guest integers WIDER than the application's (int and short): loads narrow, so a value read for the range check and read
+// again for the conversion is a check/use window. Only the narrowing-load variants run in this build.
+using Cfg = mb::cfg<uint16_t, mb::abi_wide, mb::MASK, 2>;
+#else
 using Cfg = mb::cfg<uint16_t, mb::abi_lp32, mb::MASK, 2>;
+#endif
 using SB = mb::mbox<Cfg>;
 using sbx_t = rlbox::rlbox_sandbox<SB>;
 template<class T>
@@ -53,9 +59,11 @@ enum Mut
   M_REDIR_B,    // (receiver is a pointer cell in sandbox memory) point the cell at a second interior object
   M_REDIR_END,  // ... at the last element of the region (a range from there leaves the region)
   M_REDIR_NULL, // ... store the null representation
+  M_SETHIGH,    // (narrowing loads) replace the guest integer by one that does not fit the application type (2^32 + 5)
+  M_SMALL2,     // (narrowing loads) replace it by another small value (9)
   M_N
 };
-static const char* mutn[] = { "lengthen", "nul-at-0", "nul-in-middle", "remove-all-nul", "flip-all", "flip-first-byte", "overwrite-EE", "redirect-to-B", "redirect-to-last-element", "redirect-to-null" };
+static const char* mutn[] = { "lengthen", "nul-at-0", "nul-in-middle", "remove-all-nul", "flip-all", "flip-first-byte", "overwrite-EE", "redirect-to-B", "redirect-to-last-element", "redirect-to-null", "set-unrepresentable", "set-9" };
 struct Event
 {
   int point;
@@ -112,6 +120,8 @@ static void apply(int m)
     case M_REDIR_B: { PtrT r = (PtrT)g_sc.redir_b; memcpy(g_mem + g_sc.cell_off, &r, sizeof r); break; }
     case M_REDIR_END: { PtrT r = (PtrT)g_sc.redir_end; memcpy(g_mem + g_sc.cell_off, &r, sizeof r); break; }
     case M_REDIR_NULL: { PtrT r = 0; memcpy(g_mem + g_sc.cell_off, &r, sizeof r); break; }
+    case M_SETHIGH: { uint64_t v = (1ull << (4 * L)) + 5; memcpy(s, &v, L); break; } // 2^(application width) + 5: does not fit
+    case M_SMALL2: { uint64_t v = 9; memcpy(s, &v, L); break; }
   }
   snapshot_version();
 }
@@ -703,6 +713,40 @@ static void variant_cell_string(uint64_t& idx)
   }
 }
 
+// ---- narrowing loads (guest integer wider than the application's) --------------------------------------------
+// The cell holds 7. Whatever the adversary writes between RLBox's reads (9, or 2^w+5 with w the application width, which does not fit), the value the
+// application gets is one the cell held AND that fits - or the load aborts. A value checked on one read and converted from
+// another shows up as 5 (2^32+5 truncated), which the cell never held.
+template<class T>
+static void variant_narrowing(uint64_t& idx)
+{
+  const uint64_t off = 0x4000;
+  const uint64_t GW = sizeof(rlbox::tainted_volatile<T, SB>);
+  std::string tag = std::string("narrowing<") + tname<T>() + "> guest width " + std::to_string(GW);
+  auto setup = [=] {
+    g_sc = Scenario{ off, GW, off - 16, GW + 48, false };
+    memset(g_mem + off - 16, 0, GW + 48);
+    uint64_t v = 7;
+    memcpy(g_mem + off, &v, GW);
+  };
+  auto ok = [](T v) { return v == (T)7 || v == (T)9; };
+  static const char* pn[] = { "load to tainted", "copy_and_verify(value)", "copy_and_verify(pointer)", "copy_and_verify_range x1" };
+  for (int path = 0; path < 4; path++) {
+    Variant body = [=](Verdict& vd) {
+      auto p = sp<T>(off);
+      T got = 7;
+      switch (path) {
+        case 0: { tn<T> x = *p; got = x.UNSAFE_unverified(); break; }
+        case 1: got = p->copy_and_verify([](T v) { return v; }); break;
+        case 2: got = p.copy_and_verify([](std::unique_ptr<T> v) { return *v; }); break;
+        case 3: got = p.copy_and_verify_range([](std::unique_ptr<T[]> v) { return v[0]; }, 1); break;
+      }
+      if (!ok(got)) vd.problems.push_back("value-never-held: the application received " + str((i128)got) + ", which the guest cell never held (it held 7, 9 or a value that does not fit the application type)");
+    };
+    explore((std::string("narrowing ") + pn[path]).c_str(), tag, setup, body, { M_SETHIGH, M_SMALL2 }, idx);
+  }
+}
+
 static void variant_deny(uint64_t off, size_t n, uint64_t& idx)
 {
   std::string tag = "deny x" + std::to_string(n) + "@" + std::to_string(off);
@@ -748,6 +792,19 @@ int main(int argc, char** argv)
   g_mem = sb.get_sandbox_impl()->mem();
   if (g_args.replay) g_args.parts = 1;
   uint64_t idx = 0;
+#ifdef C09_WIDE
+  variant_narrowing<int>(idx);
+  variant_narrowing<unsigned>(idx);
+  variant_narrowing<short>(idx);
+  stat("evaluations", n_eval);
+  stat("scripts", n_scripts);
+  stat("nontrivial", n_nontriv);
+  stat("states", n_points_total);
+  stat("transitions", n_eval);
+  stat("traces", n_eval);
+  finish();
+  return 0;
+#endif
   for (uint64_t off : { (uint64_t)0x4000, kSize - 16 }) {
     for (size_t c = 1; c <= 4; c++) {
       variant_range<char, 1>(off + (16 - c), c, idx);
